@@ -975,7 +975,7 @@ def _pair_graphs():
     return out
 
 
-def enum_pairs(fam, extra=None):
+def enum_pairs(fam, extra=None, quick_stride=13):
     def enum(tier):
         bases = _pair_graphs()
         if extra:
@@ -987,7 +987,7 @@ def enum_pairs(fam, extra=None):
             m = len(names)
             # quick: a strided sample in which every query occurs in both
             # roles; thorough: all ordered pairs
-            stride = 1 if tier != "quick" else 13
+            stride = 1 if tier != "quick" else quick_stride
             idx = 0
             for i in range(m):
                 for j in range(m):
@@ -1347,6 +1347,13 @@ class InteractingFamily(Family):
 
 
 INTERACTING = InteractingFamily()
+
+
+def inter_extra(i, base):
+    n = base["g"]["n"]
+    return {"side": [(3 * k + i) % 3 for k in range(n)],
+            "order": [(k * 2 + 1 + i) % n if n % 2 else (n - 1 - k)
+                      for k in range(n)]}
 
 
 @st.composite
@@ -2330,6 +2337,9 @@ SUBCHECKS = [
              quick=(2, 40), thorough=(8, 600)),
     SubCheck("interacting_seq", oracle_sequence(INTERACTING),
              gen=interacting_cases, quick=(4, 80), thorough=(16, 800)),
+    SubCheck("interacting_pairs", oracle_pair(INTERACTING),
+             enum=enum_pairs(INTERACTING, inter_extra, quick_stride=5),
+             quick=(8, None), thorough=(16, None), exhaustive=("thorough",)),
     SubCheck("climate_chain", oracle_sequence(DATA), gen=chain_cases,
              quick=(6, 50), thorough=(16, 500)),
     SubCheck("climate_data_seq", oracle_sequence(DATA), gen=data_cases,
